@@ -92,3 +92,74 @@ PLANS["C09"] = {
     "level_note": "Trusted: reference model vcore::wsmodel; recipients are adopted from the observed legal choice.",
     "design_ref": "3/C09",
 }
+
+PLANS["C02"] = {
+    "title": "Peer lists are sound, bounded and never contain the requester",
+    "level": "exploration",
+    "engine": "select_enum",
+    "technique": "runtime predicate monitor over real peer-selection code; scripted RNG enumerates every offset outcome (http, ws), SmallRng sweep with inferred offsets (udp); plus the predicate embedded in the three swarm_diff engines",
+    "packages": ["vudp", "vhttp", "vws"],
+    "parallel": 8,
+    "steps": lambda tier, seed: [
+        {"name": "udp_select", "bin": "udp_select", "args": []},
+        {"name": "http_select", "bin": "http_select", "args": []},
+        {"name": "ws_select", "bin": "ws_select", "args": []},
+    ] + (swarm_steps("udp_swarm", "udp_swarm", "quick", quick_budget=8) + swarm_steps("http_swarm", "http_swarm", "quick", quick_budget=8) + swarm_steps("ws_swarm", "ws_swarm", "quick", quick_budget=8)
+         if tier == "quick" else
+         shards("udp_swarm", "udp_swarm", 4, ["--histories", "100000000", "--budget_s", "100"]) + shards("http_swarm", "http_swarm", 4, ["--histories", "100000000", "--budget_s", "100"]) + shards("ws_swarm", "ws_swarm", 4, ["--histories", "100000000", "--budget_s", "100"])),
+    "min_evaluations": {"quick": 200000, "thorough": 1000000},
+    "assumptions": ["udp takes a concrete SmallRng: offsets are swept and inferred, full coverage of offset pairs is required only for requester-absent cases up to size 16 (inconclusive otherwise)",
+                    "scripted RNG relies on rand's range sampling; self-checked at start-up (inconclusive if it fails)"],
+    "level_text": "Exploration, exhaustive over the RNG for small sizes: for every swarm size up to 40 (130 thorough), every limit 0..size+3 and the requester absent or at every insertion index, the real selection code of all three trackers is run for every outcome of both random offsets (scripted RNG; udp by seed sweep) and each returned list is checked with the pure predicate of the statement; the same predicate runs inside the random-history engines with decoy torrents and the other family populated.",
+    "level_note": "Trusted: the predicate (vcore::model::check_peer_list and the ws variant), the scripted RNG self-check.",
+    "design_ref": "3/C02",
+}
+
+PLANS["C13"] = {
+    "title": "UDP wire codec conforms to BEP 15 and round-trips",
+    "level": "exploration",
+    "engine": "codec_diff",
+    "technique": "differential runtime monitor: aquatic_udp_protocol writer/parser vs independent BEP 15 reference codec on boundary-crossed and random messages, rejection table, scrape-cut grid",
+    "packages": ["vproto"],
+    "parallel": 16,
+    "steps": lambda tier, seed: ([{"name": "codec_udp", "bin": "codec_udp", "args": ["--messages", "300000", "--budget_s", "20"]}] if tier == "quick"
+                                 else shards("codec_udp", "codec_udp", 16, ["--messages", "100000000", "--budget_s", "100"])),
+    "min_evaluations": {"quick": 500000, "thorough": 5000000},
+    "assumptions": ["reference codec written from the BEP 15 tables (vproto::refudp)", "reply ports are >= 1 in generated replies"],
+    "level_text": "Exploration: every message kind with boundary values (0, +-1, MIN, MAX) and random fill is written by the crate and compared byte for byte with an independent BEP 15 encoder, reference bytes are parsed by the crate and compared field by field (announces with 0..64 extension bytes; replies of both families with 0..300 peers), every truncation length / unknown action / event / protocol id bit / port 0 / empty or ragged hash list must be rejected with the request's own ids where answerable, and the scrape cut is checked for every limit 0..255 x count.",
+    "level_note": "Trusted: the reference codec (about 250 lines of explicit offsets).",
+    "design_ref": "3/C13",
+}
+
+PLANS["C14"] = {
+    "title": "HTTP wire codec: requests round-trip, replies are canonical bencode",
+    "level": "exploration",
+    "engine": "codec_diff",
+    "technique": "differential runtime monitor: aquatic_http_protocol vs reference query-string writer/identifier decoder and independent canonical bencode encoder + strict decoder",
+    "packages": ["vproto"],
+    "parallel": 16,
+    "steps": lambda tier, seed: ([{"name": "codec_http", "bin": "codec_http", "args": ["--messages", "80000", "--budget_s", "20"]}] if tier == "quick"
+                                 else shards("codec_http", "codec_http", 16, ["--messages", "100000000", "--budget_s", "100"])),
+    "min_evaluations": {"quick": 200000, "thorough": 5000000},
+    "assumptions": ["reply counters are generated up to i64::MAX (bencode integers are read back as i64 by the bundled client)", "keys are generated within the parser's documented 100-byte cap; longer keys must be rejected",
+                    "raw '=' '&' '%' inside values are not well-formed and are always percent-encoded by the reference writer"],
+    "level_text": "Exploration: library-written announce/scrape requests parse back equal for all events and optional fields; reference-written query strings in random parameter order with unknown keys and identifiers written raw (Latin-1), %xx or %XX parse to the intended values; identifier strings of nine classes (valid, 19/21 units, truncated or non-hex escapes, characters above U+00FF raw or as hex digits) are accepted iff they denote exactly 20 bytes; every reply is byte-identical to an independent canonical encoder, passes a strict decoder and parses back equal.",
+    "level_note": "Trusted: reference writer/decoder and the strict bencode codec in vcore::bencode.",
+    "design_ref": "3/C14",
+}
+
+PLANS["C15"] = {
+    "title": "WebTorrent JSON codec round-trips; 20-byte ids are exact",
+    "level": "exploration",
+    "engine": "codec_diff",
+    "technique": "round-trip runtime monitor over all message kinds (text and binary frames), independent JSON reader on emitted text, reference acceptance predicate for identifier strings",
+    "packages": ["vproto"],
+    "parallel": 16,
+    "steps": lambda tier, seed: ([{"name": "codec_ws", "bin": "codec_ws", "args": ["--messages", "100000", "--budget_s", "20"]}] if tier == "quick"
+                                 else shards("codec_ws", "codec_ws", 16, ["--messages", "100000000", "--budget_s", "100"])),
+    "min_evaluations": {"quick": 200000, "thorough": 5000000},
+    "assumptions": ["independent JSON reader vcore::json decides what the emitted text denotes"],
+    "level_text": "Exploration: every InMessage/OutMessage kind with optional fields present, absent or null and hostile SDP text (quotes, backslashes, all C0 controls, U+2028/9, astral characters, up to 40 kB) survives to_ws_message/from_ws_message as text and as binary frame; hand-built JSON for null/missing fields and single/list/empty scrape hashes parses to the intended value; identifiers in emitted text are 20 characters <= U+00FF equal to the bytes; identifier strings of 0..40 characters with characters above U+00FF at every position are accepted iff exactly 20 characters <= U+00FF.",
+    "level_note": "Trusted: vcore::json reader and the acceptance predicate.",
+    "design_ref": "3/C15",
+}
